@@ -389,6 +389,147 @@ def constraints_case(ck, sg, st, SymmetryConstraints):
     return None, pos
 
 
+def orbit_partition(sg, pts):
+    """Exact brute-force orbit partition of a listing of exact positions (Fractions, any cell): a position belongs to the first
+    class whose first listed member has an image, under some operation of the group, that differs from it by a lattice vector.
+    Returns the classes in listing order, each with its members in listing order."""
+    zero = (Fraction(0),) * 3
+    classes, images = [], []
+    for i, p in enumerate(pts):
+        key = tuple(Fraction(v) % 1 for v in p)
+        for cl, im in zip(classes, images):
+            if key in im:
+                cl.append(i)
+                break
+        else:
+            classes.append([i])
+            images.append(set(oracle_classes(sg, [Fraction(v) for v in p], zero)[0]))  # all images of the representative
+    return classes
+
+
+def judge_listing(sg, scs, pos, exact, eps):
+    """A listing (float positions `pos`, each within the tolerance of the exact position `exact`) judged against its exact orbit
+    partition: one class and one generator (the first listed member) per orbit, every listed site - also a second, third copy of
+    a site in another cell - in the class of its orbit; the free parameters are those of the generators, as many as the site
+    symmetry leaves free; the formulas at the reported values reproduce every listed member modulo lattice translations."""
+    tol = TOL if eps is None else eps
+    classes = orbit_partition(sg, exact)
+    expected = {c[0]: sorted(c) for c in classes}
+    LAST["expected"], LAST["eps"] = {str(k): v for k, v in expected.items()}, eps
+    got = {g: sorted(v) for g, v in scs.coremap.items()}
+    if got != expected:
+        return "coremap has %d classes %r, the listing consists of %d orbits %r" % (len(got), got, len(expected), expected)
+    if len(scs.corepos) != len(expected):
+        return "corepos has %d entries for %d orbits" % (len(scs.corepos), len(expected))
+    want = {}
+    for g in expected:
+        dim = free_dim_exact(sg, exact_stabiliser(sg, [Fraction(v) for v in exact[g]]))
+        if dim:
+            want[g] = dim
+    have = {}
+    for smbl, _v in scs.pospars:
+        try:
+            owner = int(smbl[1:])
+        except ValueError:
+            return "position parameter symbol %r" % (smbl,)
+        have[owner] = have.get(owner, 0) + 1
+    if have != want:
+        return ("pospars %r: %d parameters owned by sites %r, the orbits of the listing have %d free parameters (generator: number) %r"
+                % (scs.posparSymbols(), sum(have.values()), sorted(have), sum(want.values()), want))
+    vals = {k_: Fraction(float(v)).limit_denominator(10 ** 12) for k_, v in scs.pospars}
+    for i, fm in enumerate(scs.poseqns):
+        try:
+            got_p = [sc.eval_linear(sc.parse_linear(fm[c]), vals) for c in "xyz"]
+        except (ValueError, KeyError, TypeError) as e:
+            return "poseqns[%d] = %r cannot be evaluated with pospars (%r)" % (i, fm, e)
+        if sc.pdist(got_p, pos[i]) > tol:
+            return "poseqns[%d] = %r at pospars gives %r, position is %r (eps=%r)" % (i, fm, [float(g) for g in got_p], pos[i], eps)
+    return custom_symbols_check(scs, pos, tol) or moved_positions_check(scs, pos, tol)
+
+
+def redundant_case(rng, sg, st, SymmetryConstraints):
+    """Union of 1-3 orbits listed with REDUNDANT members: some or all listed sites occur again - moved by a lattice vector
+    (components -2..2: a doubled cell written in base-cell coordinates, (1,1,1) next to (0,0,0), the same atom given in two cells),
+    bit-identical, or with noise <= 0.3 eps - before, after or in between the originals.  More sites of an orbit may be listed
+    than its multiplicity.  Returns (problem or None, positions, exact positions as strings, eps)."""
+    nops = len(sg.symop_list)
+    zero = (Fraction(0),) * 3
+    # orbits short enough to be listed in full, so that the copies exceed the multiplicity
+    pool = [i for i in range(len(st)) if nops // max(1, st[i]["nstab"]) <= 16] or list(range(len(st)))
+    k = min(len(pool), rng.choice([1, 1, 2, 2, 3]))
+    chosen = rng.sample(pool, k)
+    eps = None if rng.random() < 0.7 else 1.0e-3
+    tol = TOL if eps is None else eps
+    style = rng.choice(["shift", "shift", "exact", "noisy", "mixed"])
+    where = rng.choice(["after", "before", "shuffled"])
+    originals, repeats = [], []  # (owner, exact position (Fractions, with its cell shift), noise)
+    for c in chosen:
+        x0 = [strata.frac(p) for p in st[c]["xyz"]]
+        opos, _ = oracle_classes(sg, x0, zero)
+        if len(opos) > 16:
+            opos = opos[:1] + rng.sample(opos[1:], 7)
+        elif len(opos) > 2 and rng.random() < 0.15:
+            opos = rng.sample(opos, len(opos) - 1)  # a sub-listing of the orbit is allowed input
+        how = rng.choice(["all", "all", "some", "one", "twice"])
+        if how == "some":
+            rep = [j for j in range(len(opos)) if rng.random() < 0.5] or [rng.randrange(len(opos))]
+        elif how == "one":
+            rep = [rng.randrange(len(opos))]
+        else:
+            rep = list(range(len(opos))) * (2 if how == "twice" and len(opos) <= 8 else 1)
+        base = []
+        for p in opos:
+            n = [rng.randrange(-1, 2) for _ in range(3)]
+            base.append((c, [p[j] + n[j] for j in range(3)], [rng.choice([-1, 0, 1]) * 1.0e-2 * tol for _ in range(3)]))
+        originals += base
+        for j in rep:
+            _c, q, nz = base[j]
+            sty = rng.choice(["shift", "exact", "noisy"]) if style == "mixed" else style
+            if sty == "exact":
+                repeats.append((c, q, nz))
+                continue
+            L = [rng.randrange(-2, 3) for _ in range(3)]
+            while sty == "shift" and not any(L):
+                L = [rng.randrange(-2, 3) for _ in range(3)]
+            nz2 = nz if sty == "shift" else [rng.uniform(-0.3, 0.3) * tol for _ in range(3)]
+            repeats.append((c, [q[j] + L[j] for j in range(3)], nz2))
+    rng.shuffle(originals)
+    rng.shuffle(repeats)
+    items = originals + repeats if where == "after" else repeats + originals
+    if where == "shuffled":
+        rng.shuffle(items)
+    # the first listed member of an orbit becomes its generator: its noise is moved around by the averaging over the site
+    # symmetry and by the operations (factor <= maxrow^2); keep every listed site within 0.9 eps of the generator's orbit
+    maxrow = max(sum(abs(float(v)) for v in row) for o in sg.symop_list for row in o.R)
+    ag = min(0.3, 0.6 / max(1.0, maxrow) ** 2) * tol
+    seen = set()
+    pos, exact = [], []
+    for c, q, nz in items:
+        if c not in seen:
+            seen.add(c)
+            nz = [max(-ag, min(ag, v)) for v in nz]
+        pos.append([float(q[j]) + nz[j] for j in range(3)])
+        exact.append(q)
+    exs = [[str(v) for v in q] for q in exact]
+    LAST["expected"], LAST["eps"] = None, eps
+    try:
+        scs = SymmetryConstraints(sg, pos) if eps is None else SymmetryConstraints(sg, pos, eps=eps)
+        prob = judge_listing(sg, scs, pos, exact, eps)
+    except Exception as e:  # noqa: BLE001
+        return "raised %r" % (e,), pos, exs, eps
+    # model line: the exact (noise-free) listing for DS.Partition.coremap
+    from .c02 import lcm
+
+    q = 1
+    for p in exact:
+        for v in p:
+            q = lcm(q, Fraction(v).denominator)
+    D = 24 * q
+    MODEL.append(("con.partition %d %d %s" % (sg.number, q, " ".join(str(int(Fraction(v) * D)) for p in exact for v in p)),
+                  {g: sorted(v) for g, v in scs.coremap.items()}, sg.number))
+    return prob, pos, exs, eps
+
+
 def moved_positions_check(scs, pos, tol):
     """`SymmetryConstraints.positions` are the listed positions put exactly onto the orbit of their generator: every listed
     position stays where it is up to the tolerance (no jump to another member of the orbit or to another cell)"""
@@ -465,6 +606,7 @@ def directed_symbols_case(ck, sg, st, SymmetryConstraints):
 
 
 def run(ck):
+    import random
     import sys
 
     import diffpy.structure.spacegroups as sgs
@@ -545,6 +687,25 @@ def run(ck):
                 ck.fail("constraints:%s" % sg.number, "SymmetryConstraints(%s #%s): %s" % (sg.short_name, sg.number, prob),
                         {"kind": "input", "setting": sg.number, "positions": pos, "detail": prob, "stream": "constraints",
                          "expected_coremap": LAST.get("expected"), "eps": LAST.get("eps")})
+    # listings with redundant members: sites repeated in another cell, exactly, or with noise (exact brute-force orbit partition)
+    nred = 0
+    rrng = random.Random("C05 redundant %r" % (ck.seed,))  # own generator: the other streams keep their cases
+    for sg in sgs.SpaceGroupList:
+        st = allstrata.get(sg.number)
+        if not st:
+            continue
+        for _ in range(2 if ck.widen and ck.tier == "quick" else 1 if ck.tier == "quick" else 5):
+            nred += 1
+            try:
+                prob, pos, exs, eps = redundant_case(rrng, sg, st, SymmetryConstraints)
+            except Exception as e:  # noqa: BLE001
+                prob, pos, exs, eps = "raised %r" % (e,), None, None, None
+            if prob:
+                ck.fail("constraints-redundant:%s" % sg.number,
+                        "SymmetryConstraints(%s #%s), listing with sites repeated in other cells: %s" % (sg.short_name, sg.number, prob),
+                        {"kind": "input", "setting": sg.number, "positions": pos, "exact": exs, "eps": eps, "detail": prob,
+                         "stream": "constraints-redundant", "expected_coremap": LAST.get("expected")})
+    ncon += nred
     # the same listing with the tabulated and then with a shifted space-group origin (small groups: exact brute-force partition)
     noff = 0
     for sg in sgs.SpaceGroupList:
@@ -598,8 +759,10 @@ def run(ck):
     ck.coverage["distinct_nontrivial"] = len(distinct) + ncon
     ck.coverage["rule"] = ("all settings x strata representatives (<=6 per setting quick) x variants %s: exact stabiliser, exact dimension, formulas at reported "
                            "and 3 other parameter vectors (oracle), null_space certificate decided by the Lean checker, model formulas vs parsed strings; "
-                           "%d SymmetryConstraints listings (unions of 1-4 orbits, shuffled, shifted, 1e-7 noise); distinct_nontrivial = special sites + listings"
-                           % (sorted(kinds.items()), ncon))
+                           "%d SymmetryConstraints listings (unions of 1-4 orbits, shuffled, shifted, 1e-7 noise; %d of them with redundant members: sites "
+                           "repeated after a lattice shift -2..2, bit-identical or with noise <= 0.3 eps, before / after / between the originals, judged "
+                           "by the exact brute-force orbit partition); distinct_nontrivial = special sites + listings"
+                           % (sorted(kinds.items()), ncon, nred))
     ck.coverage["samples"] = [{"driver": lines[i], "model": outs[i][:200] if outs else None} for i in (0, len(lines) // 2) if lines]
     ck.assumptions += ["SVD null space and its rationalisation are certificate-checked per generated site, not proved as algorithms",
                        "formula constants are printed with 6 significant digits: evaluation is compared at the position tolerance 1e-5"]
@@ -654,6 +817,20 @@ def replay(path):
         print("coremap classes:", got)
         print("orbits under the shifted group:", want)
         return 0 if got == want else 1
+    if r.get("stream") == "constraints-redundant":
+        eps = r.get("eps")
+        exact = [[Fraction(v) for v in p] for p in r["exact"]]
+        try:
+            sc_ = SymmetryConstraints(sg, r["positions"]) if eps is None else SymmetryConstraints(sg, r["positions"], eps=eps)
+        except Exception as e:  # noqa: BLE001
+            print("raised", repr(e))
+            return 1
+        print("coremap:", {g: sorted(v) for g, v in sc_.coremap.items()})
+        print("exact orbit partition of the listing:", orbit_partition(sg, exact))
+        print("pospars:", sc_.pospars)
+        prob = judge_listing(sg, sc_, r["positions"], exact, eps)
+        print("problem:", prob)
+        return 1 if prob else 0
     if r.get("stream") == "constraints":
         eps = r.get("eps")
         try:
